@@ -854,3 +854,151 @@ class EmbHash(Contract):
 
 
 CONTRACTS += [EmbData(), LoadEntity(), LoadName(), LoadResistance(), EmbGetItem(), EmbIter(), EmbLen(), EmbEq(), EmbHash()]
+
+
+# ------------------------------------------------------------------------------------------------ small members
+class CombinedInit(Contract):
+    """a new combined registry is empty"""
+    file, qual = BASE, "CombinedRegistry.__init__"
+    props = ("C20",)
+    inline_at_call_sites = True
+
+    def setup(self, ex, st, variant):
+        return dict(self=VObj("CombinedRegistry"))
+
+    def ensures(self, ex, pre, st, a, result):
+        d = st.get(a["self"], "_data")
+        if not isinstance(d, VDict):
+            return [("has-a-data-dict", tm.FALSE)]
+        D = map_arr(st, d)
+        s = tm.V("s", STR)
+        return [("holds-nothing", tm.forall([s], tm.eq(tm.select(D, s), ABSENT))), ("inv_data", inv_data(D))]
+
+    def result(self, ex, st, a):
+        return [(st, NONE)]
+
+
+class CombinedLShift(Contract):
+    """`combined << registry` adds the registry (contract of add_registry) and evaluates to the combined registry"""
+    file, qual = BASE, "CombinedRegistry.__lshift__"
+    props = ("C20",)
+
+    def setup(self, ex, st, variant):
+        reg, d = mk_combined(ex, st, "D0")
+        self.D0, self.R = tm.V("D0", MAP), tm.V("R", SEQI)
+        member = VObj("MemberRegistry")
+        st.set_inplace(member, "_values", VT(self.R, "list"))
+        return dict(self=reg, registry=member)
+
+    def requires(self, ex, st, a):
+        i = tm.V("i", INT)
+        return [("items-have-identities", tm.forall_range(i, 0, tm.seqlen(self.R), tm.le(0, tm.seqnth(self.R, i)))),
+                ("inv_data", inv_data(self.D0))]
+
+    def ensures(self, ex, pre, st, a, result):
+        D = map_arr(st, st.get(a["self"], "_data"))
+        idx = st.ghost.get("idx", tm.constarr(IDX, 0))
+        return [("evaluates-to-the-combined-registry", tm.B(result is a["self"])),
+                ("union-of-keys-first-one-wins", union_first_wins(self.D0, D, self.R, tm.seqlen(self.R), idx)),
+                ("inv_data-preserved", inv_data(D))]
+
+    def result(self, ex, st, a):
+        st = st.fork()
+        st.set_inplace(st.get(a["self"], "_data"), "arr", VT(tm.fresh("D", MAP)))
+        return [(st, a["self"])]
+
+
+class ItemRecord(Contract):
+    """item.record is the record of the item's entity"""
+    file, qual = BASE, "Item.record"
+    props = ("C20",)
+    inline_at_call_sites = True
+
+    def setup(self, ex, st, variant):
+        it = VObj("Item")
+        ent = VObj("AbstractModule")
+        rec = ex.models.sym_record(st, "CircularRecord", "rec")
+        st.set_inplace(ent, "record", rec)
+        st.set_inplace(it, "entity", ent)
+        self.rec = rec
+        return dict(self=it)
+
+    def ensures(self, ex, pre, st, a, result):
+        return [("the-record-of-the-entity", tm.B(result is self.rec))]
+
+    def result(self, ex, st, a):
+        return [(st, st.get(st.get(a["self"], "entity"), "record"))]
+
+
+class FsFiles(Contract):
+    """the patterns handed to filterdir: `*.<ext>` for every extension, in order"""
+    file, qual = BASE, "FilesystemRegistry._files"
+    props = ("C20",)
+    inline_at_call_sites = True
+
+    def setup(self, ex, st, variant):
+        reg = VObj("FilesystemRegistry")
+        st.set_inplace(reg, "_extensions", VTuple([VT(tm.V("e0", STR)), VT(tm.V("e1", STR)), VT(tm.S("genbank"))]))
+        return dict(self=reg)
+
+    def ensures(self, ex, pre, st, a, result):
+        if not isinstance(result, VList):
+            return [("a-list", tm.FALSE)]
+        items = st.get(result, "items")
+        exts = pre.get(a["self"], "_extensions").items
+        if len(items) != len(exts):
+            return [("one-pattern-per-extension", tm.FALSE)]
+        return [("one-pattern-per-extension", tm.TRUE)] + [
+            ("pattern-%d" % i, tm.eq(p.t, tm.concat("*.", e.t)) if isinstance(p, VT) else tm.FALSE) for i, (p, e) in enumerate(zip(items, exts))]
+
+    def result(self, ex, st, a):
+        st, l = ex.new_list(st, [VT(tm.concat("*.", e.t)) for e in st.get(a["self"], "_extensions").items])
+        return [(st, l)]
+
+
+CONTRACTS += [CombinedInit(), CombinedLShift(), ItemRecord(), FsFiles()]
+
+
+class FsInit(Contract):
+    """a directory registry is created for a part / module / vector class only (TypeError otherwise); it keeps the base
+    class and the extensions it is given and opens the directory read-only"""
+    file, qual = BASE, "FilesystemRegistry.__init__"
+    props = ("C20",)
+    inline_at_call_sites = True
+    variants = ("base-part", "base-module", "base-vector", "base-not-a-class", "base-another-class", "base-part/extensions")
+
+    def setup(self, ex, st, variant):
+        self.variant = variant
+        if variant.startswith("base-part"):
+            base = ex.models.sym_class("AbstractPart", tm.V("base", INT))
+        elif variant == "base-module":
+            base = ex.models.sym_class("AbstractModule", tm.V("base", INT))
+        elif variant == "base-vector":
+            base = ex.models.sym_class("AbstractVector", tm.V("base", INT))
+        elif variant == "base-not-a-class":
+            base = VT(tm.V("base", STR))
+        else:
+            base = VClass("CircularRecord", ex.repo.find_class("CircularRecord"))
+        a = dict(self=VObj("FilesystemRegistry"), fs_url=VT(tm.V("url", STR)), base=base)
+        if variant.endswith("/extensions"):
+            a["extensions"] = VTuple([VT(tm.S("genbank")), VT(tm.S("gb"))])
+        return a
+
+    def raises(self, ex, st, a):
+        return [("TypeError", tm.B(self.variant in ("base-not-a-class", "base-another-class")), None)]
+
+    def ensures(self, ex, pre, st, a, result):
+        s = a["self"]
+        exts = st.get(s, "_extensions")
+        want = ["genbank", "gb"] if self.variant.endswith("/extensions") else ["gb", "gbk"]
+        got = [tm.cval(x.t) for x in exts.items if isinstance(x, VT) and tm.is_const(x.t)] if isinstance(exts, VTuple) else None
+        fsv = st.get(s, "fs")
+        return [("keeps-the-base-class", tm.B(st.get(s, "base") is a["base"])),
+                ("keeps-the-extensions", tm.B(got == want)),
+                ("opens-the-directory", tm.B(isinstance(fsv, VObj) and fsv.kind == "FSAbs" and st.get(fsv, "url") is a["fs_url"]))]
+
+    def result(self, ex, st, a):
+        return [(st, NONE)]
+
+
+CONTRACTS.append(FsInit())
